@@ -1918,12 +1918,10 @@ func (l *LanguageServer) handleTextDocumentDidSave(
 	ctx context.Context,
 	params types.TextDocumentDidSaveParams,
 ) (any, error) {
-	if params.Text != nil && l.getLoadedConfig() == nil {
+	if cfg := l.getLoadedConfig(); params.Text != nil && cfg != nil {
 		if !strings.Contains(*params.Text, "\r\n") {
 			return struct{}{}, nil
 		}
-
-		cfg := l.getLoadedConfig()
 
 		enabled, err := linter.NewLinter().WithUserConfig(*cfg).DetermineEnabledRules(ctx)
 		if err != nil {
